@@ -26,6 +26,7 @@
 From Crusta Require Import Spec.AF Sat.Cnf Sat.Prog Model.Encoders Model.Graph Model.Solvers.
 From Crusta Require Import Proofs.EncSpec Proofs.SolverBasics Proofs.SolverThms.
 From Crusta Require Import Proofs.TopBase Proofs.TopMax Proofs.SolverTop.
+From Crusta Require Proofs.Clauses.
 Open Scope prog_scope.
 
 Theorem C07_complete_list_component_partial : forall oracle thr, 1 <= thr -> valid_oracle oracle ->
@@ -78,7 +79,34 @@ Theorem C07_lists : forall oracle thr g F,
   end.
 Proof. exact SolverTop.top_lists. Qed.
 
+(* ---- the sentences of the property text, in its own words (Proofs/Clauses.v) ---- *)
+
+(* "credulous YES exactly when some extension contains at least one of them, skeptical YES exactly
+   when every extension contains at least one of them" *)
+Theorem C07_lists_in_words : forall oracle thr g F,
+  valid_oracle oracle -> 1 <= thr -> view_good g F ->
+  forall s q e al fuel cert st0 b c t,
+  q <> QSE -> supported s q -> enc_ok s e -> al_ok s q F al ->
+  run_query oracle thr fuel s q cert e g al st0 = Done (OAcc b c) t ->
+  (b = true <-> if qpol q then exists S, ext s F S /\ exists a, In a al /\ In a S
+                else forall S, ext s F S -> exists a, In a al /\ In a S).
+Proof. exact Clauses.lists_in_words. Qed.
+
+(* "The variants with and without certificate return the same status, wherever the listed arguments
+   lie": any list al admitted by al_ok (any arguments of F, in the same or in different connected
+   components, attacking each other or not, repeated or not) *)
+Theorem C07_certificate_variants_agree : forall g F, view_good g F ->
+  forall oracle thr, valid_oracle oracle -> 1 <= thr ->
+  forall s q e al fuel st0 b1 c1 t1 b2 c2 t2,
+  q <> QSE -> supported s q -> enc_ok s e -> al_ok s q F al ->
+  run_query oracle thr fuel s q true e g al st0 = Done (OAcc b1 c1) t1 ->
+  run_query oracle thr fuel s q false e g al st0 = Done (OAcc b2 c2) t2 ->
+  b1 = b2.
+Proof. exact Clauses.certificate_flag_independent. Qed.
+
 Print Assumptions C07_complete_list_component_partial.
 Print Assumptions C07_stable_list_cred_component_partial.
 Print Assumptions C07_stable_list_skep_component_partial.
 Print Assumptions C07_lists.
+Print Assumptions C07_lists_in_words.
+Print Assumptions C07_certificate_variants_agree.
